@@ -131,18 +131,13 @@ def suite_labels(seed, tier):
 
 
 def search_c18(seed, tier, failures):
-    for kind, d in failures:
-        if isinstance(d, dict) and d.get("suite") == "labels" and not d["what"].startswith("model differs"):
-            return {"violation": d["what"], **{k: v for k, v in d.items() if k not in ("what", "suite")}}
-    rr = suite_labels(seed + 1, "quick")
-    for d in rr.bad:
-        if not d["what"].startswith("model differs"):
-            return {"violation": d["what"], **{k: v for k, v in d.items() if k not in ("what", "suite")}}
-    return None
+    import replay_util
+    return replay_util.make_search([suite_labels])(seed, tier, failures)
 
 
 def replay_c18(payload):
-    return search_c18(payload.get("seed", 1) - 1, "quick", []) is None
+    import replay_util
+    return replay_util.make_replay([suite_labels])(payload)
 
 
 if __name__ == "__main__":
